@@ -223,6 +223,8 @@ impl Ctx {
             .and_then(|s| s.parse().ok())
             .unwrap_or_else(|| std::thread::available_parallelism().map(|n| n.get()).unwrap_or(8));
         let start = Instant::now();
+        // VERIF_WALL_CAP_S overrides the tier's wall cap (maintenance runs on a loaded machine)
+        let wall_cap_s = std::env::var("VERIF_WALL_CAP_S").ok().and_then(|s| s.parse().ok()).unwrap_or(wall_cap_s);
         let _ = PROPERTY.set(property.to_string());
         let _ = TIER_NAME.set(tier.name().to_string());
         Ctx {
